@@ -14,7 +14,7 @@ _TECH = ("TLA+ state-function model (Eff), TLC model checking (safety + liveness
 _NOTE = ("write transactions are atomic steps (SQLite serialises them; PostgreSQL is not available offline); objects live "
          "in one unversioned bucket (a version = one object row); the collector is run through the guarded export "
          "gc.RunOnce with a 1 ms grace window and the storage's own background loop is parked at its first gate; "
-         "environment faults (orphan part, dropped / over-counted registry row) are injected by direct SQL / part-store "
+         "a slow PutObject (part id minted, transaction open) is held at a part-store gate; environment faults (orphan part, dropped / over-counted registry row) are injected by direct SQL / part-store "
          "calls in the directions the code itself produces; TLC, the Go toolchain and SQLite are trusted")
 CHECKS = {
     "C08": {"text": "PartRefs.tla models every mutating operation as one atomic transaction over parts rows, part_registry, "
@@ -263,7 +263,7 @@ def run(ctx):
     stats = {"ops": {}, "gc": {}, "rd": {}, "extdeletes": 0}
     quick = ctx.quick()
     drv = ctx.gobuild("partrefs")
-    faults = '{"orphan", "regdrop", "regover"}'
+    faults = '{"orphan", "regdrop", "regover", "slow"}'
     stress, crash = [], []
 
     if ctx.prop == "C08":
@@ -273,10 +273,12 @@ def run(ctx):
             ctx.mc("PartRefs", "PartRefs.MC2.cfg", workers=8, timeout=3000)
         must_violate(ctx, "PartRefs.MC.cfg", "H-C08-condemn-no-recount", "NoReferencedPartMissing", {"MaxOps": "2"})
         must_violate(ctx, "PartRefs.MC.cfg", "H-C08-copy-no-tryadd", None, {"MaxOps": "3"})
+        must_violate(ctx, "PartRefs.MC.cfg", "H-C08-snapshot-orphans", None, {"MaxOps": "2"})
         weights = {"W": 6, "F": 2, "T": 1, "G": 7, "R": 0}
         # (stack, walks, scenario set, scenario sample (None = all interleavings), modes)
-        plan = ctx.pick([("fs", 12, [1, 2, 3], 24, ["api"]), ("classes", 8, [8, 9], 10, ["api"])],
-                        [("fs", 200, [1, 2, 3], None, ["api"]), ("sql", 100, [1, 2, 3], 200, ["api"]),
+        plan = ctx.pick([("fs", 12, [1, 2, 3], 24, ["api"]), ("fs", 0, [10, 11], None, ["api"]), ("classes", 8, [8, 9], 10, ["api"])],
+                        [("fs", 200, [1, 2, 3], None, ["api"]), ("fs", 0, [10, 11], None, ["api"]), ("sql", 0, [10, 11], None, ["api"]),
+                         ("classes", 0, [10, 11], None, ["api"]), ("sql", 100, [1, 2, 3], 200, ["api"]),
                          ("fs2", 80, [8, 9], 200, ["api"]), ("classes", 200, [8, 9], 300, ["api"])])
         stress = ctx.pick([("fs", 4, 40, 2)], [("fs", 6, 300, 3), ("sql", 4, 150, 2), ("classes", 6, 300, 3)])
     elif ctx.prop == "C09":
